@@ -11,22 +11,22 @@ CHECKS = {
          "Every observed execution of the real evaluator is compared with an independent naive ranker: quick covers every flush-table execution (all 4,089,228 sets with >=5 cards of a suit), every one of the 49,205 no-flush slots, 8M random sets and 10,000 sets in all 5040 orders; thorough covers all 133,784,560 sets (exhaustive over sets) plus 400,000 sets in all orders, and checks Ord/PartialOrd/Eq of consecutive hands against poker order; a dev-profile pass (overflow checks, debug assertions) re-evaluates every rank multiset and flush mask in child processes, and a concurrent pool stress has 16 threads re-evaluate pools of 2..65536 hands against the oracle (a shared cache inside the evaluator must survive concurrent use). Held means: no disagreement on any observed execution.",
          TRUST + " The 7! presentation orders per set are sampled (seed-hashed order per set), exhausted only for the listed sets.", "DESIGN.md §4 C01"),
  "C02": ("online boundary monitor + naive-enumerator oracle (multiset fingerprints per board position) over complete drains of the real evaluator; deal hook for coverage and a logical non-termination bound",
-         "Each case drains the real FlopExhaustiveEvaluator completely; every showdown is checked locally (flop order, unseen turn/river, combo from the player's own range, 5+2n distinct cards, probability = one of the exactly computable f32 products of the weights for up to four players) and the multiset of yielded deals must equal the naive enumeration position by position; for products of range sizes at and beyond 2^32 the first 60,000 showdowns must be legal, pairwise different and not end early. Cases: 1-8 players, range sizes 1..1326 (255/256/257 boundaries), identical/overlapping/flop-blocked ranges, parsed and collected ranges, seeded random configurations.",
+         "Each case drains the real FlopExhaustiveEvaluator completely; every showdown is checked locally (flop order, unseen turn/river, combo from the player's own range, 5+2n distinct cards, probability = one of the exactly computable f32 products of the weights for up to four players) and the multiset of yielded deals must equal the naive enumeration position by position; for products of range sizes at and beyond 2^32 the first 60,000 showdowns must be legal, pairwise different and not end early; every case of up to 40,000 showdowns is also walked through nth/skip/step_by/take/last/count and compared with the next() loop; zero players and notation spelling combos low card first are covered, and no parsed range may hold one combo under two keys. Cases: 1-8 players, range sizes 1..1326 (255/256/257 boundaries), identical/overlapping/flop-blocked ranges, parsed and collected ranges, seeded random configurations.",
          TRUST + " Range lists are sampled, not enumerated; f32 probability compared with relative tolerance 1e-5.", "DESIGN.md §4 C02"),
  "C04": ("online comparison of scoped runs with the unscoped run (position order, per-position multiset fingerprints, exhaustion) over seeded/exhaustive scope pairs and chains; dev-profile child pass",
          "Every scoped run of the real evaluator is compared online with the unscoped run of the same configuration. Quick: all 1177 starts x 8 characteristic ends per configuration, 2,380 random chains, repeated scope() calls (including back to the whole line, the same scope twice, an empty scope), configurations with an empty range, prefix agreement of unscoped and scoped runs for products of range sizes beyond 2^32, and a dev-profile pass (debug assertions). Thorough: all 693,253 (from<=to) pairs for three configurations.",
          TRUST + " Configurations (flop, ranges) are sampled; the unscoped run is the reference and is itself checked against R3 under C02.", "DESIGN.md §4 C04"),
  "C07": ("online reference-model monitor (category of the best five cards) over the C01 sweep",
-         "The Debug name of hand_type() is compared with the oracle's category on every observed evaluation: quick reaches every one of the 4,824 reachable power indexes (all flush-table executions, all rank multisets), thorough all 133,784,560 sets; the strongest and weakest class seen per category are reported.",
+         "The partition of hands induced by hand_type() (its Debug name; a renamed variant is accepted as long as the nine categories stay apart) is compared with the oracle's category on every observed evaluation: quick reaches every one of the 4,824 reachable power indexes (all flush-table executions, all rank multisets), thorough all 133,784,560 sets; the strongest and weakest class seen per category are reported.",
          TRUST, "DESIGN.md §4 C07"),
  "C08": ("crash-isolated child processes on 2 MiB threads in dev and release profiles, wait-status classifier + hook-based deal bound, blocked-run, depth and stack probes",
-         "Each (case, profile) drains the real evaluator in its own process on a 2 MiB thread; panic, integer overflow (dev profile), out-of-bounds, stack overflow/abort and logical non-termination (more than 1176*prod(len)+16 considered deals) are violations, a watchdog firing is inconclusive. Cases: combos on the flop beside 1..1326 combos (longest blocked runs), AsKs vs all combos, sizes 0/1/255/256/257/300/1326 in every player position, empty ranges, ranges whose every weight is 0, 6-10 and 16/17/20/23 players, random lists; small cases are also drained through size_hint()/collect()/count().",
+         "Each (case, profile) drains the real evaluator in its own process on a 2 MiB thread; panic, integer overflow (dev profile), out-of-bounds, stack overflow/abort and logical non-termination (more than 1176*prod(len)+16 considered deals) are violations, a watchdog firing is inconclusive. Cases: combos on the flop beside 1..1326 combos (longest blocked runs), AsKs vs all combos, sizes 0/1/255/256/257/300/1326 in every player position, empty ranges, ranges whose every weight is 0, 6-10 and 16/17/20/23 players, random lists; small cases are also drained through size_hint()/collect()/count() and with the scope given explicitly.",
          TRUST + " OS/default-stack semantics of std::thread; range lists sampled.", "DESIGN.md §4 C08"),
  "C03": ("online reference-model monitor (five-card oracle per player) over direct Showdown::new calls",
          "Every observed Showdown::new call is checked for player order, per-player evaluation of its own seven cards, winner flags = exactly the holders of the strongest class, winner_len = flagged count >= 1, echoed cards/board/probability, and None exactly when a hole card lies on the board. Workload: 400k random showdowns with 1..23 players biased to share ranks, all ordered heads-up pairs of the 1081 live combos on tie-making boards (royal/straight flush/quads/broadway/wheel/full house on board), collision cases for every board slot and seat, sequences of consecutive calls on one thread that share players/turn/river over different flops or follow a refused call, and a dev-profile pass with up to 23 players.",
          TRUST + " Boards and player sets are sampled (all heads-up pairs exhausted for the listed boards).", "DESIGN.md §4 C03"),
  "C05": ("online reference-model monitor (standard notation meaning) over parser executions; exhaustive over tokens, seeded over lists",
-         "parse::<HandRange>() and parse::<HandRangeToken>()+into_iter() are compared combo by combo and bit by bit with the notation's meaning for every one of the 3,640 well-formed tokens under fixed, corner and random weight literals, for 20,000 (quick) / 300,000 (thorough) seeded token lists with forced overlaps (later token wins) and spaces sprinkled anywhere, and for the empty/blank strings; weight literals include exact f32 midpoints nudged in the 45th digit (double rounding), lists repeat earlier tokens verbatim, and some lists start with a complete cover of all 1326 combos.",
+         "parse::<HandRange>() and parse::<HandRangeToken>()+into_iter() are compared combo by combo and bit by bit with the notation's meaning for every one of the property's 3,796 well-formed tokens (3,640 written from the high end plus the 156 single rank pairs spelled kicker first) under fixed, corner and random weight literals, for 20,000 (quick) / 300,000 (thorough) seeded token lists with forced overlaps (later token wins) and spaces sprinkled anywhere, and for the empty/blank strings; weight literals include exact f32 midpoints nudged in the 45th digit (double rounding), lists repeat earlier tokens verbatim, and some lists start with a complete cover of all 1326 combos.",
          TRUST + " Well formed excludes degenerate spans and reversed rank pairs, whose meaning the statement does not fix; expected weight = Rust's correctly rounded f32 of the literal.", "DESIGN.md §4 C05"),
  "C06": ("online round-trip monitor (format -> parse -> bitwise comparison) over exhaustive row/rank-pair patterns and seeded whole ranges",
          "to_string() then parse::<HandRange>() must reproduce the key set and f32 bits. Quick: every absent/a/b pattern in every row's top and bottom window of up to 7 cells, all 3^6/3^4 patterns in every pocket/suited pair, all 2^12 + sampled 3^12 patterns in 8 offsuit pairs, sampled full rows, random whole ranges, every well-formed token x corner/random weights, every weight whose shortest print does not survive a detour through f64 (std-only sweep; committed list re-derived by the thorough tier), and texts formatted right after a formatter call whose writer failed midway. Thorough: every full-length row pattern (3.2M) and all offsuit pairs.",
@@ -38,10 +38,10 @@ CHECKS = {
          "Every Ok result of the token and range parsers is checked for two different cards and a weight in [0,1]; showdowns enumerated from the parsed range (alone and against itself) for probability in [0,1] and distinct cards. Strings: all 22,222 weight literals [01](.d{1,4})? on each of the seven token shapes, all 52x52 two-card strings, shape strings with arbitrary ranks and weights, random strings and lists, letters in the other case, weight literals of up to 5000 digits.",
          TRUST + " Any answer that keeps the invariant is accepted (reject, drop, or valid weight).", "DESIGN.md §4 C10"),
  "C11": ("metamorphic runtime monitor: integer win/tie tallies of complete equity loops compared under all 24 suit permutations and all player orders",
-         "The README equity loop is run on the real evaluator for a configuration and for each transformed configuration; the k-way win tallies must be identical (permuted with the players); every showdown must have flagged winners == winner_len() >= 1. Quick: 14 configurations (2-4 players, suit-specific combos, weights) x (23 relabellings + all player orders + combinations), 17- and 20-seat tables, notation-built ranges naming combos in both card orders, and a share of the transformed runs evaluated in lockstep with the original on one thread.",
+         "The README equity loop is run on the real evaluator for a configuration and for each transformed configuration; the k-way win tallies must be identical (permuted with the players); every showdown must have flagged winners == winner_len() >= 1. Quick: 14 configurations (2-4 players, suit-specific combos, weights) x (23 relabellings + all player orders + combinations), 17- and 20-seat tables, notation-built ranges naming combos in both card orders, configurations with an empty seat, and a share of the transformed runs evaluated in lockstep with the original on one thread.",
          TRUST + " Configurations are sampled.", "DESIGN.md §4 C11"),
  "C12": ("online reference-model monitor (exact split R4) over exhaustive in-rank-pair patterns and seeded ranges",
-         "rank_pairs() and orphan_card_pairs() of real ranges are compared with the exact split: quick covers all 3^6 x 13 and 3^4 x 78 patterns and all 3^12 patterns of 3 offsuit pairs (others sampled), alone and over random backgrounds, each fifth followed at once by the same combos with the same weights redistributed, complete and near-complete 1326-combo ranges, random whole ranges; thorough all 3^12 patterns of all 78 offsuit pairs (41M).",
+         "rank_pairs() and orphan_card_pairs() of real ranges are compared with the exact split: quick covers all 3^6 x 13 and 3^4 x 78 patterns and all 3^12 patterns of 3 offsuit pairs (others sampled), alone and over random backgrounds, each fifth followed at once by the same combos with the same weights redistributed, complete and near-complete 1326-combo ranges, ranges parsed from reversed spellings, random whole ranges; thorough all 3^12 patterns of all 78 offsuit pairs (41M).",
          TRUST + " 'Same weight' is f32 ==.", "DESIGN.md §4 C12"),
  "C13": ("exhaustive runtime oracle over the finite conversion/order/range relations",
          "Every relation the property names is executed on the real code for its whole finite domain (52 cards, 52 low bit words, 128+16384 ASCII strings, 13 ranks, 4 suits, all start<=end endpoint pairs) and compared with an independent table; exhaustive, so 'held' means held for every input of the stated spaces.",
@@ -50,13 +50,13 @@ CHECKS = {
          "All 2652 ordered pairs of distinct cards run through CardPair::new/Eq/Hash/Index/Display/FromStr and a HashMap and HandRange filled in both orders; exhaustive over the property's domain.",
          "Trusts std's DefaultHasher and the fxhash crate as the two hashers named by the property.", "DESIGN.md §4 C14"),
  "C15": ("schedule-driven interleaving monitor (solo vs interleaved traces), threaded stress workload with injected delays, Miri (UB/data-race interpreter) over several scheduler seeds, ThreadSanitizer (thorough), Send+Sync compile probe",
-         "Each evaluator's complete showdown trace under 2,000 (quick) / 50,000 (thorough) seeded single-thread schedules over 2-12 live evaluators (including iterators abandoned midway and restarted, twins built from the same combos in another insertion order, and evaluators built from one Vec<HandRange> overwritten in place) equals its solo trace; the threaded binary drains one evaluator per thread (2-32 threads, barrier start, yields/sleeps between next() calls, iterators handed over mid-way, showdowns/ranges read through Arc on other threads) natively, under Miri with 3 (quick) / 24 (thorough) scheduler seeds, and under ThreadSanitizer (thorough); the Send+Sync probe must compile.",
+         "Each evaluator's complete showdown trace under 2,000 (quick) / 50,000 (thorough) seeded single-thread schedules over 2-12 live evaluators (including iterators abandoned midway and restarted, twins built from the same combos in another insertion order, siblings with the same ranges on another flop, and evaluators built from one Vec<HandRange> overwritten in place) equals its solo trace; the threaded binary drains one evaluator per thread (2-32 threads, barrier start, yields/sleeps between next() calls, iterators handed over mid-way, showdowns/ranges read through Arc on other threads) natively, under Miri with 3 (quick) / 24 (thorough) scheduler seeds, and under ThreadSanitizer (thorough); the Send+Sync probe must compile.",
          TRUST + " OS schedules are sampled; Miri/TSan/cargo failures other than a UB/race report are inconclusive.", "DESIGN.md §4 C15"),
  "C16": ("exhaustive runtime oracle over worker counts (list validity) plus end-to-end scoped runs summed against the single run",
-         "calculate_scopes(n), compiled from the example's own source, is checked for every n in 1..=4096 (quick) / 1..=32768 (thorough) and 65 seeded n up to 2^22: n scopes, starts at (0,1), ends at (48,49), contiguous, never backwards, only valid positions; for n in 1..=64 (and every flagged n) one real scoped evaluator per scope is run and the sums compared with the single run.",
+         "calculate_scopes(n), compiled from the example's own source, is checked for every n in 1..=4096 (quick) / 1..=32768 (thorough) and 65 seeded n up to 2^22: n scopes, starts at (0,1), ends at (48,49), contiguous, never backwards, only valid positions; for n in 1..=64 (and every flagged n) one real scoped evaluator per scope is run and the sums compared with the single run; the real example program is built and run under taskset with 2..16 CPUs (1..15 workers) and its materialized total and per-hand equities are compared with one evaluator; n around 2^24 and up to 2^25 and a dev-profile pass cover the f32 and debug-assertion corners.",
          TRUST + " 'All n >= 1' is cut at 2^22.", "DESIGN.md §4 C16"),
  "C17": ("online structural monitor of the emitted text (strict notation reader + maximal-run oracle R4) and history-independence monitor over construction histories",
-         "Every formatted range is read back token by token: rank-pair tokens must be exactly the maximal equal-weight runs in canonical order, followed only by single combos equal to the leftovers; a share of the contents is rebuilt along up to 13 histories (shuffled/reversed collect, overwrites, rebuilt from a larger range, swapped cards, clone, parse of own text/permuted tokens/all-single-combo text) and must print identically, also right after a formatter call whose writer failed midway. Quick: all row-window patterns, 150k sampled full rows, in-rank-pair patterns, random ranges; thorough: every full-length row pattern.",
+         "Every formatted range is read back token by token: rank-pair tokens must be exactly the maximal equal-weight runs in canonical order, followed only by single combos equal to the leftovers; a share of the contents is rebuilt along up to 13 histories (shuffled/reversed collect, overwrites, rebuilt from a larger range, swapped cards, clone, parse of own text/permuted tokens/all-single-combo text) and must print identically, also right after a formatter call whose writer failed midway; a neighbour range (one weight moved by one ulp) that the library calls == must print alike; contents with zeros of both signs are compared across histories bit for bit. Quick: all row-window patterns, 150k sampled full rows, in-rank-pair patterns, random ranges; thorough: every full-length row pattern.",
          TRUST + " Duplicated single-combo tokens (pinned by upstream tests) are tolerated.", "DESIGN.md §4 C17"),
 }
 
